@@ -107,6 +107,7 @@ def subst(tpl, env):
     {'$n': {k: tpl}, '$else': tpl} -> template chosen by invocation number
     {'$probes': tree} -> nested dict of new probe objects
     {'$lit': x}       -> x unchanged
+    {'$state': path}  -> the value the probe read at that path of states
     """
     if isinstance(tpl, str):
         if tpl == '$tok':
@@ -129,6 +130,11 @@ def subst(tpl, env):
             return build_tree(tpl['$probes'])
         if '$lit' in tpl:
             return copy.deepcopy(tpl['$lit'])
+        if '$state' in tpl:
+            v = env.states
+            for k in tpl['$state']:
+                v = v[k]
+            return copy.deepcopy(v)
         return {k: subst(v, env) for k, v in tpl.items()}
     if isinstance(tpl, list):
         return [subst(v, env) for v in tpl]
@@ -156,6 +162,7 @@ class _ProbeMixin:
     defaults = {
         'pid': None, 'schema': {}, 'ts': 1, 'cond': 'always',
         'update': {}, 'init': None, 'ts_menu': None, 'log_states': True,
+        'log_snapshot': False,
     }
 
     def _probe_init(self):
@@ -216,12 +223,15 @@ class _ProbeMixin:
         else:
             res = bool(cond)
         log('cond', self.uid, self.pid, k, now(), timestep, res,
-            copy.deepcopy(states) if self.parameters['log_states'] else None)
+            copy.deepcopy(states) if self.parameters['log_states'] else None,
+            self.is_step())
         return res
 
     def next_update(self, timestep, states):
         n = self.n
         self.n += 1
+        if self.parameters['log_snapshot']:
+            log('snap', self.uid, self.pid, n, now(), snapshot())
         log('invoke', self.uid, self.pid, n, now(), timestep,
             copy.deepcopy(states), self.is_step())
         upd = subst(self.parameters['update'], Env(self, n, timestep, states))
